@@ -1,6 +1,7 @@
 import XpmVerif.Proofs.CacheCoherentBase
 /-! Cache coherence (C01), stage 1: graphs whose hash-relevant reference structure is acyclic
-    (a rank function decreases along `nodeRefs`).  No cycle reference is ever emitted, the
+    (a rank function decreases along `allRefs`, the static over-approximation of `nodeRefs`: producing task,
+    kept configurations of the argument values, configurations of the declared defaults).  No cycle reference is ever emitted, the
     specification `rawAt` depends neither on the stack nor on the fuel, the loop flag is never set, and
     `computeAt` with a cache holding specification values returns the specification value. -/
 namespace XpmVerif.Ident
@@ -8,12 +9,12 @@ open List
 
 /-- `rank` strictly decreases along every hash-relevant reference, and is bounded by the size. -/
 structure Ranked (g : Graph) (rank : Nat → Nat) : Prop where
-  decr : ∀ n m, m ∈ nodeRefs g.mt n (g.node n) → rank m < rank n
+  decr : ∀ n m, m ∈ allRefs g.mt n (g.node n) → rank m < rank n
   bound : ∀ n, rank n ≤ g.size
 
 theorem Ranked.of_sameContent {g g' : Graph} {rank : Nat → Nat} (h : SameContent g g') (hr : Ranked g rank) :
     Ranked g' rank :=
-  ⟨fun n m hm => hr.decr n m (h.nodeRefs n ▸ hm), fun n => h.1 ▸ hr.bound n⟩
+  ⟨fun n m hm => hr.decr n m (h.allRefs n ▸ hm), fun n => h.1 ▸ hr.bound n⟩
 
 /-- the stacks that occur while hashing a ranked graph: everything above `n` has a rank `≥ rank n`. -/
 def Above (rank : Nat → Nat) (stack : List Nat) (n : Nat) : Prop := ∀ x, x ∈ stack → rank n ≤ rank x
@@ -57,13 +58,13 @@ theorem rawAt_acyclic : ∀ (f f' : Nat) (stack stack' : List Nat) (n : Nat), ra
     | succ f' =>
       simp only [rawAt]
       congr 1
-      apply nodeStream_congr_refs
+      apply nodeStream_congr_ctx
       intro m hm
-      have hlt := hr.decr n m hm
+      have hlt := hr.decr n m (relRefs_sub_allRefs hm)
       obtain ⟨h1, h2⟩ := ha.child hlt
       obtain ⟨h1', h2'⟩ := ha'.child hlt
       rw [relIndex_none h1, relIndex_none h1']
-      simp only
+      refine ⟨rfl, fun _ => ?_⟩
       rw [ih f' (n :: stack) (n :: stack') m (by omega) (by omega) h2 h2']
 
 /-- the specification value under any admissible stack and sufficient fuel is `rawId`. -/
@@ -73,7 +74,7 @@ theorem rawAt_acyclic_rawId (f : Nat) (stack : List Nat) (n : Nat) (h : rank n <
 
 /-- **the loop flag is never set** in a ranked graph, whatever the caches. -/
 theorem escAt_acyclic (c : Caches D) : ∀ (f : Nat) (stack : List Nat) (n : Nat), Above rank stack n →
-    escAt g c f stack n = 0 := by
+    escAt hc g c f stack n = 0 := by
   intro f
   induction f with
   | zero => intro stack n _; rfl
@@ -84,7 +85,7 @@ theorem escAt_acyclic (c : Caches D) : ∀ (f : Nat) (stack : List Nat) (n : Nat
     · rfl
     · apply foldl_max_eq_zero
       intro m hm
-      obtain ⟨h1, h2⟩ := ha.child (hr.decr n m hm)
+      obtain ⟨h1, h2⟩ := ha.child (hr.decr n m (nodeRefs_sub_allRefs hm))
       rw [relIndex_none h1]
       simp only
       rw [ih (n :: stack) m h2]
@@ -106,12 +107,11 @@ theorem computeAt_acyclic (c : Caches D) (hinv : ∀ n d b, c.raw n = some (d, b
     · rw [← rawAt_acyclic_rawId hc g rank hr (f + 1) stack n h ha]
       simp only [rawAt]
       congr 1
-      apply nodeStream_congr_refs
+      apply nodeStream_congr_ctx
       intro m hm
-      have hlt := hr.decr n m hm
+      have hlt := hr.decr n m (relRefs_sub_allRefs hm)
       obtain ⟨h1, h2⟩ := ha.child hlt
-      rw [relIndex_none h1]
-      simp only
+      refine ⟨rfl, fun _ => ?_⟩
       rw [ih (n :: stack) m (by omega) h2, rawAt_acyclic_rawId hc g rank hr f (n :: stack) m (by omega) h2]
 
 end
@@ -138,7 +138,7 @@ theorem rawSound_acyclic {D : Type} (hc : HC D) (g0 : Graph) (rank : Nat → Nat
     · rename_i hm
       cases h
       refine ⟨by rw [hm], ?_⟩
-      rw [escAt_acyclic s.g rank (hr.of_sameContent hg) s.c _ [] n (fun _ hx => by cases hx)]
+      rw [escAt_acyclic hc s.g rank (hr.of_sameContent hg) s.c _ [] n (fun _ hx => by cases hx)]
       rfl
     · exact hJ m d b h
 
